@@ -123,5 +123,12 @@ def configs(tier):
             add("h_cross", f"CPCCARotator|alpha={alpha}|power{power}", cls="CPCCA", n=4, p=2, q=2, k=2, alpha=alpha, use_pca=False, rot={"n_modes": 2, "power": power})
     add("h_cross", "MCARotator|power1", cls="MCA", n=4, p=2, q=2, k=2, use_pca=False, rot={"n_modes": 2, "power": 1})
     add("h_cross", "CPCCARotator|alpha=0.5|pca=1", cls="CPCCA", n=4, p=2, q=2, k=2, alpha=0.5, use_pca=True, rot={"n_modes": 2, "power": 1})
+    if tier == "thorough":
+        for alpha in (0.25, 0.75):
+            add("h_cross", f"CPCCA|alpha={alpha}|pca=0", cls="CPCCA", n=4, p=2, q=2, k=2, alpha=alpha, use_pca=False)
+            add("h_cross", f"CPCCARotator|alpha={alpha}|power1", cls="CPCCA", n=4, p=2, q=2, k=2, alpha=alpha, use_pca=False, rot={"n_modes": 2, "power": 1})
+        add("h_cross", "CPCCA|alpha=0.5|n5p3q3k3", cls="CPCCA", n=5, p=3, q=3, k=3, alpha=0.5, use_pca=False)
+        add("h_cross", "MCARotator|power3", cls="MCA", n=4, p=2, q=2, k=2, use_pca=False, rot={"n_modes": 2, "power": 3})
+        add("h_single", "EOFRotator|power3", cls="EOF", n=4, p=3, k=2, rot={"n_modes": 2, "power": 3})
     # multi-set CCA: see DESIGN.md (dask block matrices + generalised eigh; not encoded yet)
     return out
